@@ -31,6 +31,8 @@ RULE = ("well-formed targets of depth <= 4 with the three x-koreo directives at 
         "cluster; policies patch/recreate/never/default, owned or not, create overlays that agree with the target; "
         "templates / inline overlays / overlayRef functions that write apiVersion, kind, metadata.name, metadata.namespace "
         "(C06's adversarial scenarios without nulls and create overlay): pass 1 creates, passes 2 and 3 are quiet; "
+        "pairs of functions for the same Kind/namespace/name in different API groups (controls: other name / namespace) "
+        "reconciled interleaved in one process without reset, each against its own cluster; "
         "a case is non-trivial when the target has >= 2 keys or a directive; distinct by content")
 ASSUMPTIONS = [
     "no explicit nulls in the target (the property's quantifier); set-directed lists hold scalars (documented "
@@ -439,7 +441,73 @@ def run_identity(ctx: Ctx):
                              expected="pass 1 creates (Retry), passes 2 and 3 make no mutating call and are Ok"))
 
 
+# ---------------------------------------------------------------------------
+# pairs of functions in one process (no reset of koreo between them)
+# ---------------------------------------------------------------------------
+
+def pair_case(rng):
+    """two functions managing the same Kind / namespace / name in DIFFERENT API groups (or, as controls, in the
+    same group under different names / namespaces), each against its own cluster"""
+    how = rng.choice(["group", "group", "group", "name", "namespace"])
+    a = {"body": B.flow_body(rng, rng.choice([1, 2])), "version": "a.example/v1", "name": B.NAME, "ns": B.NS,
+         "owned": rng.random() < 0.5, "policy": rng.choice(["patch", "default", "recreate"]), "delay": rng.choice([3, 9])}
+    b = {"body": B.flow_body(rng, rng.choice([1, 2])) if rng.random() < 0.6 else copy.deepcopy(a["body"]),
+         "version": "b.example/v1" if how == "group" else "a.example/v1",
+         "name": "w2" if how == "name" else B.NAME, "ns": "other-ns" if how == "namespace" else B.NS,
+         "owned": rng.random() < 0.5, "policy": rng.choice(["patch", "default", "recreate"]), "delay": rng.choice([3, 9])}
+    return {"kind": "pair", "how": how, "fns": [a, b]}
+
+
+def run_pair(ctx: Ctx, case):
+    import drivers
+    drivers.reset_all()
+    fns = []
+    for i, f in enumerate(case["fns"]):
+        spec = B.mk_spec(f["body"], f["policy"], f["delay"], f["owned"])
+        spec["apiConfig"].update({"apiVersion": f["version"], "name": f["name"], "namespace": f["ns"]})
+        fn, err = drivers.unwrap_prepared(drivers.run_async(drivers.prepare_rf(f"rf-pair-{i}", spec)))
+        if fn is None:
+            ctx.count("pair:prepare-failed")
+            return
+        fns.append((fn, drivers.Cluster()))
+    log = []
+    why = None
+    for rnd in range(3):                       # A1 B1 A2 B2 A3 B3, nothing reset in between
+        for i, (fn, cl) in enumerate(fns):
+            pobs = B.one_pass(fn, cl)
+            muts = [m["method"] for m in pobs["mutations"]]
+            log.append({"fn": "AB"[i], "round": rnd + 1, "outcome": pobs["outcome"], "mutations": muts,
+                        "bodies": [m.get("body") for m in pobs["mutations"]]})
+            if why:
+                continue
+            out = pobs["outcome"]
+            if out["cls"] == "Raised":
+                why = f"{'AB'[i]}{rnd + 1} raised {out['exc']}"
+            elif rnd == 0:
+                if muts != ["POST"] or out["cls"] != "Retry" or out.get("delay") != B.CREATE_DELAY:
+                    why = f"{'AB'[i]}1: expected one POST and Retry({B.CREATE_DELAY}), saw {muts} / {out['cls']}({out.get('delay')})"
+            elif muts:
+                why = (f"{'AB'[i]}{rnd + 1} made {muts} although its object was created by {'AB'[i]}1 and nothing "
+                       f"changed since ({out.get('message')})")
+            elif out["cls"] != "Ok":
+                why = f"{'AB'[i]}{rnd + 1} made no call but is {out['cls']}, not Ok"
+    ctx.note_case(case, nontrivial=True)
+    ctx.count(f"pair:{case['how']}:" + ("ok" if not why else "fail"))
+    if why:
+        ctx.fail(Failure(signature=f"flow: two functions in one process ({case['how']} differs): mutation after the first pass",
+                         what=why, case=case, observed=log,
+                         expected="each function creates its object in its first pass and never mutates afterwards"))
+
+
+def run_pairs(ctx: Ctx):
+    for _ in range(16 if ctx.quick() else 200):
+        run_pair(ctx, pair_case(ctx.rng))
+
+
 def run_case(ctx: Ctx, case, cases, terms):
+    if case.get("kind") == "pair":
+        run_pair(ctx, case)
+        return
     if case.get("kind") == "identity":
         why = run_identity_case(ctx, case["sc"])
         if why:
@@ -475,6 +543,7 @@ def run(ctx: Ctx):
     for case in gen_scenarios(ctx):
         run_scenario(ctx, case, cases, terms)
     run_identity(ctx)
+    run_pairs(ctx)
     correspond(ctx, cases, terms)
 
 
